@@ -383,8 +383,10 @@ func checkC12(c C12Case) (bool, *Violation) {
 					wantType, c12Tags[want], present, match, cls, got.ConfigFile, got.ConfigType, firstMappingName(&got))
 			}
 			wantFile := c12FileName(&c, dirBase, want)
-			if got.ConfigFile != wantFile {
-				return violation("C12", "wrong-file-name", "", "ConfigFile = %q, want %q", got.ConfigFile, wantFile)
+			// how the file is named in the result (base name, relative path, letter case) is the loader's choice; that it is
+			// THIS file is not
+			if !strings.EqualFold(filepath.Base(got.ConfigFile), filepath.Base(wantFile)) {
+				return violation("C12", "wrong-file-name", "", "ConfigFile = %q, which is not the file %q", got.ConfigFile, wantFile)
 			}
 			return nil
 		})
